@@ -35,7 +35,8 @@ ASSUMPTIONS = [
     "CPython <= 3.10 and free-threaded builds; CPython 3.11/3.12 switch only at calls/backward jumps, which still "
     "admits each reported interleaving — see the finding notes)",
     "submit_jobs / on_error callbacks do not call back into the arrayer",
-    "stop() is only called after the additions (shutdown), as the executors do",
+    "stop() is called after the additions (shutdown), and possibly once before the first addition (an idle "
+    "arrayer stopped at the end of an earlier execution), as the executors do",
 ]
 MANIFEST = {"technique": "stateless model checking of real threads at bytecode granularity (sys.monitoring "
                          "INSTRUCTION events) + Hypothesis-generated job streams and schedules"}
@@ -97,6 +98,10 @@ def run_case(ctx: Ctx, case: dict) -> Outcome:
 
         def caller(i):
             def body():
+                if i == 0 and case.get("prestop"):
+                    # the executor was shut down while idle (Scheduler.run stops every executor at
+                    # the end of an execution, used or not) and is used again afterwards
+                    arr.stop()
                 for n, op in enumerate(callers[i]):
                     if op[0] == "add":
                         job = FJob(f"{i}.{n}", op[1])
@@ -291,7 +296,10 @@ def gen_cases(draw):
     horizon = draw(st.sampled_from([25, 60, 60, 150, 300]))     # decision points vary a lot with the stream
     schedule = draw(IL.schedules(4, horizon, 4, min_pre=1))
     return {"min": mn, "max": mx, "stale": stale, "interval": interval, "callers": callers,
-            "schedule": schedule, "rel": True}
+            "schedule": schedule, "rel": True,
+            # (only with one caller: a stop() racing with another thread's add_job is the executors'
+            # shutdown window, C10's subject)
+            "prestop": ncallers == 1 and draw(st.sampled_from([False, False, True]))}
 
 
 def check(ctx: Ctx) -> None:
